@@ -1,5 +1,5 @@
 (** C14 - max-fails: exceeding the limit aborts the rest of the job for good. *)
-From HQ Require Import Base.Prelude Cluster.Types Cluster.Core Cluster.Reactor Cluster.Worker Cluster.Server Cluster.Sys Cluster.Monitors Cluster.ProofsJob Cluster.ProofsCore Cluster.ProofsMore Cluster.ProofsTerminal Cluster.ProofsStep Cluster.ProofsAll.
+From HQ Require Import Base.Prelude Cluster.Types Cluster.Core Cluster.Reactor Cluster.Worker Cluster.Server Cluster.Sys Cluster.Monitors Cluster.ProofsJob Cluster.ProofsCore Cluster.ProofsMore Cluster.ProofsTerminal Cluster.ProofsStep Cluster.ProofsAll Cluster.BijFinal Cluster.NoPanicU0 Cluster.InvBundle Cluster.AbortCauseJob Cluster.AbortCauseItems Cluster.AbortCauseAll.
 From Coq Require Import ZArith.
 Local Open Scope N_scope.
 
@@ -17,5 +17,32 @@ Theorem C14_exceed_aborts_all : forall s t aborted k s' ids,
   exists j', find_job (h_jobs (hq_of s')) (fst t) = Some j' /\ cnt (j_tasks j') JW + cnt (j_tasks j') JR = 0.
 Proof. exact exceed_aborts_all. Qed.
 
+(** Tasks are aborted ONLY with a cause.  One step from a state with the invariants: every task
+    named by a TasksAborted event either has a dependency that is aborted in the same event or
+    fails in the very next event, or belongs to a job whose failure count (after the failures
+    emitted so far in this step) exceeds its max-fails limit. *)
+Theorem C14_step_abort_cause : forall s o s' outs pre ts post t,
+  INV s -> op_wf o -> step s o = Ok (s', outs) ->
+  outs = pre ++ OEv (EvAborted ts) :: post -> In t ts ->
+  (exists tx d, find_task (c_tasks (s_core s)) t = Some tx /\ In d (t_deps tx) /\
+     (In d ts \/ (exists k post', post = OEv (EvFailed d k) :: post'))) \/
+  (exists j m, find_job (h_jobs (s_hq s)) (fst t) = Some j /\ j_maxfails j = Some m /\
+     (m < j_nfail j + onfailed (fst t) pre)%N).
+Proof. exact step_abort_cause. Qed.
+(** ... and the executable trace monitor [abort_justified] accepts EVERY history (items built as the
+    driver builds them: events + one item per accepted submit with its new ids / raw dependencies;
+    limits = the max-fails limit of every job ever created). *)
+Theorem C14_abort_justified : forall ops reserve maxfill s items,
+  Forall op_wf ops -> ops_ok (init_sys reserve maxfill) ops = true ->
+  run_items' [] (init_sys reserve maxfill) ops = Ok (s, items) ->
+  abort_justified [] (limits_of reserve maxfill ops) [] [] items = true.
+Proof. exact abort_justified_run. Qed.
+Definition C14_abort_justified_limit_example := abort_justified_limit_example.
+Definition C14_abort_justified_rejects := abort_justified_rejects.
+
 Print Assumptions C14_abort_only_over_limit.
 Print Assumptions C14_exceed_aborts_all.
+Print Assumptions C14_step_abort_cause.
+Print Assumptions C14_abort_justified.
+Print Assumptions C14_abort_justified_limit_example.
+Print Assumptions C14_abort_justified_rejects.
